@@ -479,30 +479,33 @@ def cases_route(rng, n):
     for fname, cls, modname in (("adb_device.py", "AdbDevice", "adb_shell.adb_device"), ("adb_device_async.py", "AdbDeviceAsync", "adb_shell.adb_device_async")):
         u = units[fname]
         mod = importlib.import_module(modname)
-        lean_name = "%s_io_read_route" % cls
-        fn = u.fns.get(lean_name)
-        if fn is None or any(isinstance(st, ast.Global) for st in fn["body"]):
-            continue
-        code = compile(ast.fix_missing_locations(ast.Module(body=[ast.FunctionDef(
-            name="f", args=ast.arguments(posonlyargs=[], args=[ast.arg(arg=p_) for p_ in fn["params"]], kwonlyargs=[], kw_defaults=[], defaults=[]),
-            body=copy.deepcopy(fn["body"]), decorator_list=[])], type_ignores=[])), "<%s>" % lean_name, "exec")
-        ns = dict(vars(mod))
-        exec(code, ns)
-        for _ in range(max(20, n // 2)):
-            st = _AdbPacketStore()
-            for _ in range(rng.choice([0, 1, 3, 6])):
-                st.put(rng.choice(ids), rng.choice(ids), rng.choice(cmds), rng.choice([b"", b"x"]))
-            mgr = type("_AdbIOManager", (), {})()
-            mgr._packet_store = st
-            info = _AdbTransactionInfo(rng.choice(ids), rng.choice(ids + [None]), 1, 2, 3)
-            vals = {"self": mgr, "expected_cmds": rng.choice([[b"WRTE", b"CLSE"], [b"OKAY"], [b"OKAY", b"WRTE"], [b"CLSE"]]), "adb_info": info,
-                    "allow_zeros": rng.choice([False, False, True]), "cmd": rng.choice(cmds), "arg0": rng.choice(ids), "arg1": rng.choice(ids), "data": rng.choice([b"", b"abc"])}
-            if rng.random() < 0.5:      # make a match likely
-                vals["arg0"], vals["arg1"] = (info.remote_id if info.remote_id is not None else 5), info.local_id
-            args = [vals[p_] for p_ in fn["params"]]
-            largs = " ".join(lean(a) for a in args)
-            exp = outcome(ns["f"], *[copy.deepcopy(a) for a in args])
-            out.append(("showM (%s %s)" % (lean_name, largs), exp, "%s(%s)" % (lean_name, ", ".join("%s=%s" % (p_, show(vals[p_])[:40]) for p_ in fn["params"]))))
+        for lean_name in ("%s_io_read_route" % cls, "%s_io_read_drain0" % cls, "%s_io_read_drain1" % cls):
+            fn = u.fns.get(lean_name)
+            if fn is None or any(isinstance(st, ast.Global) for st in fn["body"]):
+                continue
+            code = compile(ast.fix_missing_locations(ast.Module(body=[ast.FunctionDef(
+                name="f", args=ast.arguments(posonlyargs=[], args=[ast.arg(arg=p_) for p_ in fn["params"]], kwonlyargs=[], kw_defaults=[], defaults=[]),
+                body=copy.deepcopy(fn["body"]), decorator_list=[])], type_ignores=[])), "<%s>" % lean_name, "exec")
+            ns = dict(vars(mod))
+            exec(code, ns)
+            for _ in range(max(20, n // 2)):
+                st = _AdbPacketStore()
+                for _ in range(rng.choice([0, 1, 3, 6])):
+                    st.put(rng.choice(ids), rng.choice(ids), rng.choice(cmds), rng.choice([b"", b"x"]))
+                mgr = type("_AdbIOManager", (), {})()
+                mgr._packet_store = st
+                info = _AdbTransactionInfo(rng.choice(ids), rng.choice(ids + [None]), 1, 2, 3)
+                if rng.random() < 0.6:
+                    for _ in range(rng.choice([1, 2])):
+                        st.put(info.remote_id if info.remote_id is not None else rng.choice(ids), info.local_id, rng.choice(cmds), rng.choice([b"", b"y"]))
+                vals = {"self": mgr, "expected_cmds": rng.choice([[b"WRTE", b"CLSE"], [b"OKAY"], [b"OKAY", b"WRTE"], [b"CLSE"]]), "adb_info": info,
+                        "allow_zeros": rng.choice([False, False, True]), "cmd": rng.choice(cmds), "arg0": rng.choice(ids), "arg1": rng.choice(ids), "data": rng.choice([b"", b"abc"])}
+                if rng.random() < 0.5:      # make a match likely
+                    vals["arg0"], vals["arg1"] = (info.remote_id if info.remote_id is not None else 5), info.local_id
+                args = [vals[p_] for p_ in fn["params"]]
+                largs = " ".join(lean(a) for a in args)
+                exp = outcome(ns["f"], *[copy.deepcopy(a) for a in args])
+                out.append(("showM (%s %s)" % (lean_name, largs), exp, "%s(%s)" % (lean_name, ", ".join("%s=%s" % (p_, show(vals[p_])[:40]) for p_ in fn["params"]))))
     return out
 
 
